@@ -171,6 +171,26 @@ def _postfix_chain(txt):
     return depth == 0
 
 
+def _designator(txt):
+    """a table designator: a file-scope name followed by subscripts and member selections only (RadRate_arr[Z], a.b[i].c) - no calls,
+    no operators: an alias `row = RadRate_arr[Z]` makes row[k] the cell RadRate_arr[Z][k]"""
+    if not re.match(r'^[A-Za-z_]\w*[\[.]', txt):
+        return False
+    depth = 0
+    for ch in txt:
+        if ch == '[':
+            depth += 1
+        elif ch == ']':
+            depth -= 1
+            if depth < 0:
+                return False
+        elif ch in '()#&*':
+            return False
+        elif depth == 0 and not (ch.isalnum() or ch in '_.@'):
+            return False
+    return depth == 0
+
+
 def unparen(txt):
     """(atom[i]).x -> atom[i].x, (f_re)[Z] -> f_re[Z]: parentheses that the engine puts round the value of an alias before it
     selects a member or an element of it"""
@@ -559,6 +579,10 @@ class Interp:
             return Interval(Fraction(1), None)
         if self._single_call(key, 'strlen'):
             return Interval(Fraction(0), None)
+        if key.startswith('"') and key.endswith('"') and key.count('"') == 2:
+            iv_ = Interval(Fraction(1), None)      # the address of a string literal is not null
+            iv_.nz = True
+            return iv_
         # A6: representation invariant of Crystal_Array, 0 <= n_crystal <= n_alloc, proved to be preserved by every
         # operation in rules/c14.py and therefore available on entry of every function that receives an array
         m6 = re.match(r'^(.+)\.n_alloc \+ -1\*(.+)\.n_crystal$', key)
@@ -798,7 +822,7 @@ class Interp:
                     and not node.get('dims'):
                 cv = st.env[node['id']].canon()
                 # an alias of a plain object name (cc = crystal) is that name: no parentheses, so that cc->a and crystal->a are one cell
-                return cv if (cv == node['name'] or re.match(r'^[A-Za-z_]\w*$', cv)) else '(' + cv + ')'
+                return cv if (cv == node['name'] or re.match(r'^[A-Za-z_]\w*$', cv) or _designator(cv)) else '(' + cv + ')'
             if node.get('cls') == 'local' and (node.get('dims') or ('\0ver:' + node['name']) in st.mem):
                 ver = st.mem.get('\0ver:' + node['name'])
                 if ver is not None:
